@@ -315,12 +315,31 @@ struct DiskState {
     snap: Option<Vec<u8>>,
     snap_name: String, // model's name for that snapshot ("none" if absent)
     wal: Vec<u8>,
+    /// rotated log segments present in the directory (`w.wal.N`), copied as they are
+    segments: Vec<(String, Vec<u8>)>,
+}
+
+fn read_segments(dir: &std::path::Path) -> Vec<(String, Vec<u8>)> {
+    let mut v = Vec::new();
+    if let Ok(rd) = std::fs::read_dir(dir) {
+        for e in rd.flatten() {
+            let name = e.file_name().to_string_lossy().to_string();
+            if name.starts_with("w.wal.") {
+                v.push((name, std::fs::read(e.path()).unwrap_or_default()));
+            }
+        }
+    }
+    v.sort();
+    v
 }
 
 fn materialise(ctx: &mut Ctx, ds: &DiskState) -> (PathBuf, PathBuf, Option<PathBuf>) {
     let d = ctx.fresh_dir();
     let wal = d.join("w.wal");
     std::fs::write(&wal, &ds.wal).unwrap();
+    for (name, b) in &ds.segments {
+        std::fs::write(d.join(name), b).unwrap();
+    }
     let sp = ds.snap.as_ref().map(|b| {
         let p = d.join("snap.bin");
         std::fs::write(&p, b).unwrap();
@@ -514,6 +533,7 @@ fn run_chain(ctx: &mut Ctx, r: &mut Rng, cc: &ChainCfg, epochs: &[Vec<Op>]) {
         let mut lo_len = base_len;
         let mut resume_from: Option<(DiskState, usize, bool)> = None; // crash inside checkpoint
         let mut bounds: Vec<usize> = vec![base_len];
+        let mut model_total: usize = { let f = std::fs::read(&wal_path).unwrap_or_default(); ctx.bind_file(&f).0 };
 
         for (oi, op) in ops.iter().enumerate() {
             match op {
@@ -532,6 +552,9 @@ fn run_chain(ctx: &mut Ctx, r: &mut Rng, cc: &ChainCfg, epochs: &[Vec<Op>]) {
                         (if res.is_ok() { "ok" } else { "notfound" }, format!("del {}", hex(k.as_bytes())))
                     };
                     let model = ctx.m.ask(&line);
+                    if let Some(t) = model.split("total=").nth(1).and_then(|x| x.split_whitespace().next()).and_then(|x| x.parse().ok()) {
+                        model_total = t;
+                    }
                     let now_len = std::fs::metadata(&wal_path).map(|m| m.len() as usize).unwrap_or(0);
                     ctx.rep.hit(if is_put { "op.put" } else { "op.delete" });
                     ctx.rep.hit(&format!("keyclass.{}", key_class(k)));
@@ -652,10 +675,20 @@ fn run_chain(ctx: &mut Ctx, r: &mut Rng, cc: &ChainCfg, epochs: &[Vec<Op>]) {
                 },
                 Op::Ckpt => {
                     ctx.rep.hit("op.checkpoint");
+                    let wal_pre_call = std::fs::read(&wal_path).unwrap_or_default();
+                    let segs_before = read_segments(&dir);
+                    let old = DiskState { snap: snap_bytes.clone(), snap_name: snap_name.clone(), wal: wal_pre_call.clone(), segments: segs_before.clone() };
+                    // Observe (not assume) what is on disk when the snapshot step starts: a checkpoint
+                    // whose snapshot cannot be written stops right there, leaving the log as the
+                    // snapshot step would find it.
+                    let dry = store.checkpoint(dir.join("no-such-dir").join("snap.bin"));
                     let wal_before = std::fs::read(&wal_path).unwrap_or_default();
-                    ctx.bind_file(&wal_before);
-                    let old = DiskState { snap: snap_bytes.clone(), snap_name: snap_name.clone(), wal: wal_before.clone() };
-                    let issued_records_on_disk = immediate || synced_len == wal_before.len() && floor_ops == oi;
+                    ctx.rep.case(&format!("{}.ckpt_presync", cc.stream), None);
+                    // the model's `Sys.ckptSnapshot` leaves the log as it was
+                    ctx.rep.compare(&format!("{}.ckpt_presync", cc.stream), || json!({"script": script, "what": "log length on disk when the snapshot step starts vs before the call"}),
+                        &format!("{} {}", dry.is_err(), wal_before.len()), &format!("true {}", wal_pre_call.len()));
+                    let (n_disk, _) = ctx.bind_file(&wal_before);
+                    let issued_records_on_disk = immediate || n_disk == model_total;
                     let id = match store.checkpoint(&snap_path) {
                         Ok(id) => id,
                         Err(e) => {
@@ -668,6 +701,7 @@ fn run_chain(ctx: &mut Ctx, r: &mut Rng, cc: &ChainCfg, epochs: &[Vec<Op>]) {
                     ctx.m.ask(&format!("ckpt_snapshot {new_name}"));
                     ctx.m.ask(&format!("ckpt_marker {id}"));
                     ctx.m.ask("ckpt_truncate");
+                    model_total = 0;
                     let new_snap = std::fs::read(&snap_path).unwrap_or_default();
                     let marker = frame(&bitcode::serialize(&WalEntry::Checkpoint { snapshot_id: id }).unwrap());
                     let after_len = std::fs::metadata(&wal_path).map(|m| m.len() as usize).unwrap_or(0);
@@ -689,7 +723,7 @@ fn run_chain(ctx: &mut Ctx, r: &mut Rng, cc: &ChainCfg, epochs: &[Vec<Op>]) {
                     for mc in mcuts {
                         let mut w = wal_before.clone();
                         w.extend_from_slice(&marker[..mc.min(marker.len())]);
-                        let ds = DiskState { snap: Some(new_snap.clone()), snap_name: new_name.clone(), wal: w };
+                        let ds = DiskState { snap: Some(new_snap.clone()), snap_name: new_name.clone(), wal: w, segments: segs_before.clone() };
                         let info = CrashInfo {
                             stream: cc.stream,
                             what: format!("epoch {ei} checkpoint@op{oi}: snapshot in place, {mc}/{} marker bytes", marker.len()),
@@ -704,7 +738,7 @@ fn run_chain(ctx: &mut Ctx, r: &mut Rng, cc: &ChainCfg, epochs: &[Vec<Op>]) {
                         states.push((ds, mc > 0 && mc < marker.len()));
                     }
                     // c4: truncated
-                    let ds4 = DiskState { snap: Some(new_snap.clone()), snap_name: new_name.clone(), wal: Vec::new() };
+                    let ds4 = DiskState { snap: Some(new_snap.clone()), snap_name: new_name.clone(), wal: Vec::new(), segments: read_segments(&dir) };
                     let info4 = CrashInfo { stream: cc.stream, what: format!("epoch {ei} checkpoint@op{oi}: log truncated"), prev_torn, rotated: false, unsynced_ckpt: false, compare_model: cc.compare_model, script: &script };
                     check_recovery(ctx, &ds4, &cfg, &Expect { prefixes: &full, floor: all_now }, &info4);
                     ctx.rep.hit("ckpt_state.after_truncate");
@@ -771,7 +805,7 @@ fn run_chain(ctx: &mut Ctx, r: &mut Rng, cc: &ChainCfg, epochs: &[Vec<Op>]) {
                 } else {
                     floor_ops
                 };
-                let ds = DiskState { snap: snap_bytes.clone(), snap_name: snap_name.clone(), wal: file[..n].to_vec() };
+                let ds = DiskState { snap: snap_bytes.clone(), snap_name: snap_name.clone(), wal: file[..n].to_vec(), segments: read_segments(&dir) };
                 let is_torn = {
                     let (_, end) = ctx.bind_file(&ds.wal);
                     end == "torn"
@@ -792,7 +826,7 @@ fn run_chain(ctx: &mut Ctx, r: &mut Rng, cc: &ChainCfg, epochs: &[Vec<Op>]) {
             };
             match pick.1 {
                 None => return, // property already violated on this state; reported
-                Some(k) => (DiskState { snap: snap_bytes.clone(), snap_name: snap_name.clone(), wal: file[..pick.0].to_vec() }, k, pick.2),
+                Some(k) => (DiskState { snap: snap_bytes.clone(), snap_name: snap_name.clone(), wal: file[..pick.0].to_vec(), segments: read_segments(&dir) }, k, pick.2),
             }
         };
         if ei + 1 == epochs.len() {
@@ -801,6 +835,12 @@ fn run_chain(ctx: &mut Ctx, r: &mut Rng, cc: &ChainCfg, epochs: &[Vec<Op>]) {
         // ---- recover for real and keep writing on the recovered store
         drop(store);
         std::fs::write(&wal_path, &resume_ds.wal).unwrap();
+        for (name, _) in read_segments(&dir) {
+            let _ = std::fs::remove_file(dir.join(name));
+        }
+        for (name, b) in &resume_ds.segments {
+            std::fs::write(dir.join(name), b).unwrap();
+        }
         match &resume_ds.snap {
             Some(b) => std::fs::write(&snap_path, b).unwrap(),
             None => {
